@@ -21,13 +21,13 @@ import (
 func init() {
 	register(&Check{ID: "C01", Modules: []string{"v2"}, Run: runC01,
 		Explanation: "Thin structural clauses behind 'a verbatim copy is found whole at 1.0': (R01.1) corpus and target are tokenised by the same function with the same normalisation constant and the classifier's own dictionary; (R01.2) threshold and q are written only by the constructor, q = computeQ(threshold), and both sides build their q-grams with that q; " +
-			"(R01.3) the acceptance guard is inclusive (conf >= threshold), so a copy scoring exactly the threshold (every exact copy at threshold 1.0) is kept; (R08.4/R08.5) window carry-over and decoder window of the tokenizer (a copy must tokenise like its source at every alignment); (R03.3) span/line agreement. " +
+			"(R01.4) in the containment branch of the overlap filter a candidate is given up only under a strict comparison of the two weights (equal weights keep both); (R01.3) the acceptance guard is inclusive (conf >= threshold), so a copy scoring exactly the threshold (every exact copy at threshold 1.0) is kept; (R08.4/R08.5) window carry-over and decoder window of the tokenizer (a copy must tokenise like its source at every alignment); (R03.3) span/line agreement. " +
 			"The prefilter, window, fusion and diff arithmetic that actually find and trim the copy are numeric behaviour and are NOT decided."})
 	register(&Check{ID: "C02", Modules: []string{"v2"}, Run: runC02,
 		Explanation: "Thin structural clauses behind 'confidence never overstates': (R02.1) the corpus side of the diff is the whole document [0, size) and the same size is the denominator of the confidence; the distance is scoreDiffs of exactly the retained diff range; (R02.2) the two trimmed offsets are textLength of diffs[:start] and diffs[end:] of one diffRange call and are applied to the start and end of the span in that order; " +
 			"(R02.3) the Confidence of every license match is the first result of score; (R02.4) the confidence is 1 - float(distance)/float(length), no integer arithmetic or rounding on the way; (R03.3) span/line agreement; (R03.9) only a consumed '\\n' advances the line counter. That the block cost bounds the Levenshtein distance is numeric and NOT decided."})
 	register(&Check{ID: "C05", Modules: []string{"v2"}, Run: runC05,
-		Explanation: "Thin structural clauses behind 'presentation changes do not matter': (R05.1) with normalisation on, every rune that enters a word buffer went through unicode.ToLower; (R05.2) the punctuation table maps every typographic dash to '-' and has lower-case-stable values; (R08.5) the decoder window (so that moving text by a few bytes cannot change a rune); (R08.6) the scan position moves only by the size of the decoded rune; (R03.9) line accounting: line + held line breaks advance by exactly one per decoded '\\n' and not otherwise; (R05.3) the token clean-up returns text it built rune by rune, never its raw argument (unless shown to be letters only). " +
+		Explanation: "Thin structural clauses behind 'presentation changes do not matter': (R05.1) with normalisation on, every rune that enters a word buffer went through unicode.ToLower; (R05.2) the punctuation table maps every typographic dash to '-' and has lower-case-stable values; (R08.5) the decoder window (so that moving text by a few bytes cannot change a rune); (R08.6) the scan position moves only by the size of the decoded rune; (R03.9) line accounting: line + held line breaks advance by exactly one per decoded '\\n' and not otherwise; (R05.4) a rune joins an open word only on paths where unicode.IsSpace(r) returned false (all iteration paths enumerated); (R05.3) the token clean-up returns text it built rune by rune, never its raw argument (unless shown to be letters only). " +
 			"Whitespace and decoration handling of the rune state machine are NOT decided."})
 	register(&Check{ID: "C06", Modules: []string{"v2"}, Run: runC06,
 		Explanation: "Structural clauses behind 'notices, markers, hyphenation and spelling variants are ignored': (R06.1) the interchangeable-word table is well formed (letters-only lower-case keys map to letters-only lower-case values that are not keys); (R06.3) the hyphenation flags survive buffer refills; (R06.4) the https->http rewrite applies to every occurrence in a token, is repeated to a fixed point and is applied to the cleaned word as well (a cleaned word is a fixed point of the tokenizer); " +
@@ -228,6 +228,62 @@ func runC01(c *Ctx) {
 	}
 	tokenizerWindowRules(c, p)
 	spanLineRules(c, p)
+	checkContainmentTie(c, p)
+}
+
+// checkContainmentTie: R01.4. Two corpus documents with the same words (one text registered under two names, a user's
+// copy of an embedded license) produce candidates of equal weight that contain each other; both copies must be reported.
+// In the containment branch of the overlap filter a candidate is therefore given up only under a *strict* comparison
+// of the two weights: the place where `keep` becomes false behind contains(...) is dominated by a strict float
+// comparison.
+func checkContainmentTie(c *Ctx, p *core.Prog) {
+	m := p.Func(v2pkg, "(*Classifier).match")
+	cont := p.Func(v2pkg, "contains")
+	if m == nil || !c.R.Anchor(cont != nil, "v2.contains") {
+		return
+	}
+	n := 0
+	for _, b := range m.Blocks {
+		for _, in := range b.Instrs {
+			phi, ok := in.(*ssa.Phi)
+			if !ok || !isBool(phi.Type()) {
+				continue
+			}
+			for k, e := range phi.Edges {
+				cst, isC := e.(*ssa.Const)
+				if !isC || cst.Value == nil || cst.Value.String() != "false" {
+					continue
+				}
+				pb := b.Preds[k]
+				behindContains, strict := false, false
+				for _, ft := range core.FactsAt(pb) {
+					if call, isCall := ft.Cond.(*ssa.Call); isCall && ft.Truth && call.Call.StaticCallee() == cont {
+						behindContains = true
+					}
+					if cmp, isCmp := ft.AsCmp(); isCmp && (cmp.Op == token.GTR || cmp.Op == token.LSS) {
+						if bt, isB := cmp.X.Type().Underlying().(*types.Basic); isB && bt.Info()&types.IsFloat != 0 {
+							strict = true
+						}
+					}
+				}
+				// the edge itself: pb ends in the comparison
+				if ifi, isIf := pb.Instrs[len(pb.Instrs)-1].(*ssa.If); isIf {
+					if bo, isBo := ifi.Cond.(*ssa.BinOp); isBo && (bo.Op == token.GTR || bo.Op == token.LSS) && pb.Succs[0] == b {
+						if bt, isB := bo.X.Type().Underlying().(*types.Basic); isB && bt.Info()&types.IsFloat != 0 {
+							strict = true
+						}
+					}
+				}
+				if !behindContains {
+					continue
+				}
+				n++
+				c.R.Check(strict, "R01.4", "match: behind contains(...), a candidate is given up only when the other one weighs strictly more", p.Pos(phi.Pos()), "keep becomes false under a strict comparison of the two weights",
+					"a candidate is also given up when the two weights are equal: of two corpus documents with the same words (one text under two names) only one is reported for a verbatim copy")
+			}
+		}
+	}
+	c.R.RequireMin("R01.4", "places where a contained candidate is given up", n, 1)
 }
 
 // ---------------------------------------------------------------------------------------------
@@ -581,6 +637,7 @@ func runC05(c *Ctx) {
 	tokenizerWindowRules(c, p)
 	checkLineCounter(c, p, "R03.9")
 	checkCleanedTextBuiltRuneByRune(c, p)
+	checkWordSeparator(c, p)
 }
 
 // checkCleanedTextBuiltRuneByRune: R05.3. Typographic variants of punctuation (curly quotes, dashes, ...) disappear because
